@@ -227,7 +227,27 @@ def fam_imports(rnd, full):
             del lines[rnd.choice(prints)]
             yield C("unused-imports", "import-block", "one-binding-unused", "".join(lines), f"block{k}")
 
-FAMS = [fam_startswith, fam_isinstance, fam_invert, fam_generator, fam_misc, fam_nested, fam_sql_pieces, fam_file_alias, fam_imports]
+def fam_import_blocks(rnd, full):
+    """several top-level import blocks separated by ordinary statements, each block already ordered or not: what happens to one block must not touch the others"""
+    ORD = ["import abc", "import collections", "import json", "import os", "import sys"]
+    for k in range(24 if full else 6):
+        blocks = []; used = []
+        nb = rnd.randint(2, 3)
+        pool = ORD[:]; rnd.shuffle(pool)
+        for b in range(nb):
+            mods = [pool.pop() for _ in range(min(len(pool), rnd.randint(1, 2)))]
+            if not mods: break
+            ordered = sorted(mods)
+            state = ("ordered", "unordered")[(k + b) % 2] if len(mods) > 1 else "ordered"
+            blocks.append((ordered if state == "ordered" else ordered[::-1], state)); used += [m.split()[1] for m in mods]
+        if len(blocks) < 2 or all(st_ == "ordered" for _, st_ in blocks): continue
+        src = ""
+        for i, (stmts, st_) in enumerate(blocks):
+            src += "\n".join(stmts) + f"\n\nVF_BLOCK_{i} = {i}\n\n"
+        src += "".join(f"print({u!r}, {u}.__name__)\n" for u in used)
+        yield C("order-imports", "several-import-blocks", "+".join(st_ for _, st_ in blocks), src, f"blocks{k}")
+
+FAMS = [fam_import_blocks, fam_startswith, fam_isinstance, fam_invert, fam_generator, fam_misc, fam_nested, fam_sql_pieces, fam_file_alias, fam_imports]
 
 def all_cases(rnd, full):
     return [c for f in FAMS for c in f(rnd, full)]
